@@ -138,6 +138,12 @@ def DeriveWhere.hasTypeParam (dw : DeriveWhere) (i : Ident) : Bool :=
 def DeriveWhere.anySkip (dw : DeriveWhere) : Bool :=
   dw.traits.any fun t => SkipGroup.traitSupported t.trait
 
+/-- `Some(skip_inner) if skip_inner.group_skipped(skip_group)`. -/
+def parentCovers (skipInner : Option Skip) (g : SkipGroup) : Bool :=
+  match skipInner with
+  | .some s => s.groupSkipped g
+  | .none => false
+
 /-- The loop over the nested metas of `skip(..)` in `Skip::add_attribute`. -/
 def Skip.addGroups (c : Cfg) (dws : List DeriveWhere) (skipInner : Option Skip) :
     List Meta → List SkipGroup → R (List SkipGroup)
@@ -146,10 +152,7 @@ def Skip.addGroups (c : Cfg) (dws : List DeriveWhere) (skipInner : Option Skip) 
     let g ← SkipGroup.fromPath c p
     if acc.contains g then .error (.optionSkipDuplicate g.asStr)
     else
-      let parentCovers := match skipInner with
-        | .some s => s.groupSkipped g
-        | .none => false
-      if parentCovers then .error .optionSkipInner
+      if parentCovers skipInner g then .error .optionSkipInner
       else if dws.any (fun dw => g.traits.any dw.contains) then
         Skip.addGroups c dws skipInner rest (acc ++ [g])
       else .error .optionSkipTrait
@@ -517,12 +520,16 @@ def Data.fromStruct (c : Cfg) (dws : List DeriveWhere) (skipInner : Skip) (incom
       let fields ← Field.fromFields c dws skipInner v.fields
       .ok ⟨skipInner, incomparable, v.ident, shape, false, false, fields, none⟩
 
+/-- The `Fields::from_named` / `from_unnamed` / unit cases of `Data::from_variant`. -/
+def Data.variantFields (c : Cfg) (dws : List DeriveWhere) (skipInner : Skip) (v : RawVariant) : R (List Field) :=
+  match v.shape with
+  | .unit => .ok []
+  | _ => Field.fromFields c dws skipInner v.fields
+
 /-- `Data::from_variant`. -/
 def Data.fromVariant (c : Cfg) (dws : List DeriveWhere) (v : RawVariant) : R Data := do
   let a ← VariantAttr.fromAttrs c dws v.fields.isEmpty v.attrs {}
-  let fields ← match v.shape with
-    | .unit => pure []
-    | _ => Field.fromFields c dws a.skipInner v.fields
+  let fields ← Data.variantFields c dws a.skipInner v
   .ok ⟨a.skipInner, a.incomparable, v.ident, v.shape, true, a.default, fields,
     if c.nightly then none else v.discr⟩
 
@@ -667,27 +674,31 @@ def useCaseViolation (c : Cfg) (g : Generics) (item : Item) (foundInc : Bool)
     && (typeParams g).all dw.hasTypeParam
     && useCaseTraits c item foundInc dw.traits
 
+/-- The `match &data` of `Input::from_input`: the item and `found_incomparable`. -/
+def Input.buildItem (c : Cfg) (raw : RawItem) (attr : ItemAttr) : R (Item × Bool) :=
+  let dws := attr.deriveWheres
+  match raw.kind with
+  | .enum_ => do
+    let discriminant ← (if c.nightly then pure Discriminant.single
+                        else Discriminant.parse raw.attrs raw.variants)
+    let variants ← Data.fromVariants c dws raw.variants
+    let found ← scanVariants attr.incomparable variants false attr.incomparable
+    if !found.1 && dws.any (·.contains .default) then .error .defaultMissing
+    else if !found.1 && !found.2 && variants.all (·.fields.isEmpty) then .error .itemEmpty
+    else pure (Item.enum_ discriminant raw.ident attr.incomparable variants, found.2)
+  | _ =>
+    match raw.variants with
+    | [v] => do
+      let d ← Data.fromStruct c dws attr.skipInner attr.incomparable
+        { v with shape := if raw.kind == .union_ then .union else v.shape }
+      pure (Item.item d, attr.incomparable)
+    | _ => .error (.panic "malformed struct")
+
 /-- `Input::from_input`. -/
 def Input.fromInput (c : Cfg) (raw : RawItem) : R Input := do
   let attr ← ItemAttr.fromAttrs c raw.kind raw.attrs
-  let dws := attr.deriveWheres
-  let (item, foundInc) ← (match raw.kind with
-    | .enum_ => do
-      let discriminant ← (if c.nightly then pure Discriminant.single
-                          else Discriminant.parse raw.attrs raw.variants)
-      let variants ← Data.fromVariants c dws raw.variants
-      let (foundDefault, foundInc) ← scanVariants attr.incomparable variants false attr.incomparable
-      if !foundDefault && dws.any (·.contains .default) then .error .defaultMissing
-      else if !foundDefault && !foundInc && variants.all (·.fields.isEmpty) then .error .itemEmpty
-      else pure (Item.enum_ discriminant raw.ident attr.incomparable variants, foundInc)
-    | _ =>
-      match raw.variants with
-      | [v] => do
-        let d ← Data.fromStruct c dws attr.skipInner attr.incomparable
-          { v with shape := if raw.kind == .union_ then .union else v.shape }
-        pure (Item.item d, attr.incomparable)
-      | _ => .error (.panic "malformed struct") : R (Item × Bool))
-  if useCaseViolation c raw.generics item foundInc dws then .error .useCase
-  else .ok ⟨dws, raw.generics, item⟩
+  let r ← Input.buildItem c raw attr
+  if useCaseViolation c raw.generics r.1 r.2 attr.deriveWheres then .error .useCase
+  else .ok ⟨attr.deriveWheres, raw.generics, r.1⟩
 
 end DW
